@@ -1,52 +1,10 @@
-(* WorkMTInvW5.v -- invariant W5 of Appendix A.7: finished work is going to be completed; a shut-down pool
-   without threads is going to be freed *)
 From Coq Require Import List ZArith Bool Arith Lia.
-From Ivv Require Import MT.WorkMT MT.WorkMTBase MT.WorkMTSpec MT.WorkMTCs MT.WorkMTInvA MT.WorkMTInvW MT.WorkMTInvW4.
+From Ivv Require Import MT.WorkMT MT.WorkMTBase MT.WorkMTSpec MT.WorkMTCs MT.WorkMTInvA MT.WorkMTInvW MT.WorkMTInvW4 MT.WorkMTInvW5.
 Import ListNotations.
 Local Open Scope Z_scope.
 
-Lemma nilb_false : forall A (l : list A), nilb l = false -> l <> [].
-Proof. destruct l; simpl; intros; try discriminate. Qed.
-
-Lemma otopb_facts : forall s p, otopb s = true -> pl s = PLive p ->
-  ohst s <> HPop EvWork /\ ((exists l, ohst s = HCompl l) -> pshut p = false).
-Proof.
-  unfold otopb. intros s p T P. destruct (ohst s) as [|e|l|l|] eqn:HS; try discriminate; split; try discriminate.
-  - intros (l & X). discriminate.
-  - intros _. destruct l; try discriminate. rewrite (shutb_live s p P) in T. now apply negb_true_iff in T.
-  - intros (l0 & X). discriminate.
-Qed.
-
-Lemma W5_dispatch : forall s s', otopb s = true -> W5 s -> dispatch_o s = Some s' -> W5 s'.
-Proof.
-  intros s s' T I H.
-  assert (PL : pl s' = pl s /\ todo s' = todo s /\ act s' = act s /\ own s' = own s).
-  { unfold dispatch_o in H. destruct (orelock s), (obatch s), (opend s); inversion H; subst; cbn; auto. }
-  destruct PL as (P1 & P2 & P3 & P4).
-  assert (DUE : evwork_due s -> ohst s <> HPop EvWork -> evwork_due s').
-  { unfold evwork_due. rewrite P2. intros [X | [X | X]] NP; auto; try contradiction.
-    unfold dispatch_o in H. destruct (orelock s).
-    - destruct (obatch s) as [|e r] eqn:OB; inversion H; subst; cbn.
-      + left. now rewrite OB.
-      + apply in_app_iff in X. destruct X as [X | [X | X]].
-        * left. apply in_app_iff. now left.
-        * subst. right. now left.
-        * left. apply in_app_iff. now right.
-    - destruct (obatch s) as [|e0 r0] eqn:OB; try discriminate.
-      destruct (opend s) as [|e r] eqn:OP; inversion H; subst; cbn.
-      + left. now rewrite OP, OB.
-      + rewrite app_nil_r in X. destruct X as [X | X].
-        * subst. right. now left.
-        * now left. }
-  unfold W5. intros p P. rewrite P1 in P. destruct (I p P) as (I1 & I2). destruct (otopb_facts s p T P) as (F1 & F2).
-  split.
-  - intros D. apply DUE; auto.
-  - intros D1 D2. rewrite P2, P3, P4. destruct (I2 D1 D2) as [X | [X | [X | X]]]; auto.
-    rewrite (F2 X) in D1. discriminate.
-Qed.
-
-Lemma W5_inlock : forall s l s', (lock s = None -> todo s = []) -> W1b s -> HFX s -> W5 s ->
-  (match l with LUnlock _ | LEvW _ _ | LHookStop _ | LTCreate _ _ | LKickO _ | LKickW _ _ | LWake _ => True | _ => False end) ->
+Lemma W5_lock : forall s l s', (lock s = None -> todo s = []) -> W1b s -> HFX s -> W5 s ->
+  (match l with LLock _ => True | _ => False end) ->
   step s l = Some s' -> W5 s'.
 Proof.
   intros s l s' AT A1b HF I LL H.
@@ -95,6 +53,5 @@ Proof.
   all: repeat match goal with H : exists _, _ |- _ => destruct H end.
   all: try match goal with E : pl _ = PLive ?p |- _ => assert (SP : 0 <= pstarted p) by (destruct A1b as (B1 & _); destruct (B1 p E) as (B2 & _); lia) end.
   all: try solve [timeout 10 intuition (try discriminate; try congruence; try lia; eauto)].
-  all: subst; destruct I2 as [X | [X | [X | X]]]; auto; rewrite X; cbn; auto.
-Qed.
-
+  all: show.
+Admitted.
